@@ -1,10 +1,187 @@
-import EphVerif.Model.Control
+/-
+C28 — STORE admission enforces size, TTL, PoW and an unforgeable rate limit.
+
+`admit` / `admit_connection`: an OK_STORE reply implies PAYLOAD-LENGTH present, payload within the
+cap, TTL (header value reinterpreted as int64 seconds, or the default) inside [min, max], and -- when
+store PoW is enabled -- a STORE-POW nonce for which `store_pow_valid(sha256(payload), size,
+sanitised PATH, nonce)` holds (`sha` is any function; the validator is C19's model).
+`too_large_reads_no_body`: a header block containing a PAYLOAD-LENGTH line above the cap is answered
+with an error while the blank line and every body byte are still unread.
+`rate_store` / `rate_fetch`: with no token configured, for every history of clock advances and
+connections (any addresses, any bytes), every address gets at most 6 OK_STORE and at most 12
+streamed OK_FETCH in every closed window of 30 s.
+-/
+import EphVerif.Lemmas.C28Admit
 import EphVerif.Spec.Control
 
 namespace EphVerif.C28
+open EphVerif.Control
 
-/-- (T) the limits the property names -/
+/-- (T) the limits the property names, as the code has them -/
 theorem limits_eq : Gen.C28.kStoreRateBurstLimit = 6 ∧ Gen.C28.kStoreRateWindow = 30 ∧
     Gen.C28.kFetchStreamBurstLimit = 12 ∧ Gen.C28.kFetchStreamRateWindow = 30 := by decide
+
+/-- (T) the comparisons of the two limiters and of the cap check have the strictness the proofs rely on -/
+theorem comparisons_eq : Gen.C28.storeWindowStrict = 1 ∧ Gen.C28.storeLimitInclusive = 1 ∧
+    Gen.C28.fetchWindowStrict = 1 ∧ Gen.C28.fetchLimitInclusive = 1 ∧ Gen.C28.payloadCapStrict = 1 ∧
+    Gen.C28.ttlLowStrict = 1 ∧ Gen.C28.ttlHighStrict = 1 := by decide
+
+/-- (T) with no token configured the bucket is not derived from the request's TOKEN header -/
+theorem bucket_not_from_header : Gen.C28.storeIdentityFromHeader = 0 ∧ Gen.C28.fetchIdentityFromHeader = 0 := by decide
+
+/-- (T) the default cap is the documented 32 MiB -/
+theorem default_cap_eq : Gen.C28.kDefaultControlStreamBytes = 32 * 1024 * 1024 ∧
+    Gen.C28.kConfigControlStreamMaxBytes = 32 * 1024 * 1024 := by decide
+
+section
+variable {ν : Type} (sha : Bytes → Bytes) (ops : NodeOps ν) (cfg : Config)
+
+/-- **C28.admit** on a parsed request -/
+theorem admit (now : Int) (addr : Bytes) (st : ServerState ν) (req : Request)
+    (hok : (handleRequest sha ops cfg now addr st req).2.code = "OK_STORE") :
+    Admitted sha cfg req (handleRequest sha ops cfg now addr st req).2 :=
+  handleRequest_ok_store sha ops cfg now addr st req hok
+
+/-- **C28.admit** on the bytes of a connection: an OK_STORE answer means the stream parsed into a
+    request whose payload is within the cap and which passed every admission test -/
+theorem admit_connection (now : Int) (addr : Bytes) (st : ServerState ν) (input : Bytes) (r : Reply)
+    (hr : (handleClient sha ops cfg now addr st input).2 = some r) (hok : r.code = "OK_STORE") :
+    ∃ req unread, parseRequest cfg.cap input = .ok req unread ∧ req.payload.length ≤ cfg.cap ∧ Admitted sha cfg req r := by
+  unfold handleClient at hr
+  cases hp : parseRequest cfg.cap input with
+  | closed => rw [hp] at hr; simp at hr
+  | error code u =>
+    rw [hp] at hr
+    simp only [Option.some.injEq] at hr
+    have := (parseErrorCode_not_pass (parse_error_codes hp)).1
+    rw [← hr] at hok
+    simp only [err] at hok
+    rw [hok] at this
+    simp [storePassCode] at this
+  | ok req u =>
+    rw [hp] at hr
+    simp only [Option.some.injEq] at hr
+    refine ⟨req, u, rfl, parse_payload_le_cap hp, ?_⟩
+    rw [← hr] at hok ⊢
+    exact admit sha ops cfg now addr st req hok
+
+end
+
+/-- the TTL admitted is the value of the TTL header read as a decimal `uint64` and reinterpreted as
+    `int64`, so a header value of 2^63 or more never lies inside a window of non-negative bounds -/
+theorem wrapped_ttl_negative (n : Nat) (h1 : 9223372036854775808 ≤ n) (h2 : n < 18446744073709551616) : secondsOfU64 n < 0 := by
+  unfold secondsOfU64
+  have : ¬ n < 9223372036854775808 := by omega
+  simp only [this, ↓reduceIte]
+  omega
+
+/-- **C28: a declared length above the cap is refused before any body byte is read.**
+    `before`, `l`, `after` are the header lines (each a complete line within the 16 KiB limit), `l`
+    declares `n > cap`; the daemon answers with an error (its own parse error, or that of an earlier
+    malformed line) and the blank line plus the whole body are still unread. -/
+theorem too_large_reads_no_body (cap : Nat) (before after : List Bytes) (l v body : Bytes) (n : Nat)
+    (hgood : ∀ x ∈ before ++ l :: after, GoodLine serverMaxLine x)
+    (hh : Spec.Control.header l = some (ascii "PAYLOAD-LENGTH", v)) (hv : parseU64 v = some n) (hn : n > cap) :
+    ∃ code pre, parseRequest cap (wireLines (before ++ l :: after) ++ 10 :: body) = .error code (pre ++ 10 :: body) := by
+  obtain ⟨s', pre, hf⟩ := foldLines_too_large hh hv hn after before {}
+  obtain ⟨code, hc⟩ := foldLines_stop_error cap _ _ _ _ hf
+  refine ⟨code, wireLines (pre ++ after), ?_⟩
+  unfold parseRequest
+  rw [lineLoop_block serverMaxLine (reqLine cap) _ body {} hgood, hf]
+  simp only [hc]
+
+/-- when every earlier header line is accepted, the error is ERR_CONTROL_PAYLOAD_TOO_LARGE and the
+    unread bytes start right after the offending line -/
+theorem too_large_code (cap : Nat) (before after : List Bytes) (l v body : Bytes) (n : Nat) (s : ReqState)
+    (hgood : ∀ x ∈ before ++ l :: after, GoodLine serverMaxLine x)
+    (hbefore : foldLines (reqLine cap) {} before = (s, none))
+    (hh : Spec.Control.header l = some (ascii "PAYLOAD-LENGTH", v)) (hv : parseU64 v = some n) (hn : n > cap) :
+    parseRequest cap (wireLines (before ++ l :: after) ++ 10 :: body) =
+      .error "ERR_CONTROL_PAYLOAD_TOO_LARGE" (wireLines after ++ 10 :: body) := by
+  have hf : ∀ (bs : List Bytes) (s0 : ReqState), foldLines (reqLine cap) s0 bs = (s, none) →
+      foldLines (reqLine cap) s0 (bs ++ l :: after) =
+        ({ s with sawAnyLines := true, error := some "ERR_CONTROL_PAYLOAD_TOO_LARGE" }, some after) := by
+    intro bs
+    induction bs with
+    | nil => intro s0 h0; simp only [foldLines] at h0; injection h0 with h0 _; subst h0
+             simp [foldLines, reqLine_too_large s0 hh hv hn]
+    | cons b bs ih =>
+      intro s0 h0
+      rw [foldLines] at h0
+      rw [List.cons_append, foldLines]
+      cases hb : reqLine cap s0 (stripCR b) with
+      | next st' => rw [hb] at h0; exact ih st' h0
+      | stop st' => rw [hb] at h0; simp at h0
+  unfold parseRequest
+  rw [lineLoop_block serverMaxLine (reqLine cap) _ body {} hgood, hf before {} hbefore]
+
+section
+variable {ν : Type} (sha : Bytes → Bytes) (ops : NodeOps ν) (cfg : Config)
+
+theorem window_eq : ((Gen.C28.kStoreRateWindow : Nat) : Int) * nsPerSecond = Spec.Control.windowNs ∧
+    ((Gen.C28.kFetchStreamRateWindow : Nat) : Int) * nsPerSecond = Spec.Control.windowNs := by decide
+
+/-- **C28.rate (STORE)**: no token configured; any node behaviour, any initial instant, any history of
+    clock advances and connections from any addresses carrying any bytes; any address `a`, any
+    window start `t`: at most 6 OK_STORE replies to `a` in `[t, t + 30 s]`. -/
+theorem rate_store (htok : cfg.token = none) (node : ν) (now0 : Int) (evs : List Event) (a : Bytes) (t : Int) :
+    Spec.Control.inWindow (timesOf (runEvents sha ops cfg now0 (ServerState.init node) [] evs).2.2 a "OK_STORE") t
+      ≤ Spec.Control.storeLimit := by
+  have hinv := runEvents_inv sha ops cfg htok evs now0 (ServerState.init node) [] (SysInv.init now0 node)
+  have hb := (hinv.store a).2
+  have hs := Bounded.sublist (timesOf_sublist_S _ a) hb
+  have := hs t
+  unfold countIn at this
+  rw [window_eq.1] at this
+  exact this
+
+/-- **C28.rate (streamed FETCH)**: likewise at most 12 streamed OK_FETCH replies per address in every
+    closed 30 s window. -/
+theorem rate_fetch (htok : cfg.token = none) (node : ν) (now0 : Int) (evs : List Event) (a : Bytes) (t : Int) :
+    Spec.Control.inWindow (streamTimesOf (runEvents sha ops cfg now0 (ServerState.init node) [] evs).2.2 a) t
+      ≤ Spec.Control.fetchLimit := by
+  have hinv := runEvents_inv sha ops cfg htok evs now0 (ServerState.init node) [] (SysInv.init now0 node)
+  have hb := (hinv.fetch a).2
+  have hs := Bounded.sublist (streamTimesOf_sublist_F _ a) hb
+  have := hs t
+  unfold countIn at this
+  rw [window_eq.2] at this
+  exact this
+
+/-- the specification's universally quantified form -/
+theorem rate_ok (htok : cfg.token = none) (node : ν) (now0 : Int) (evs : List Event) (a : Bytes) :
+    Spec.Control.RateOk 6 (timesOf (runEvents sha ops cfg now0 (ServerState.init node) [] evs).2.2 a "OK_STORE") ∧
+    Spec.Control.RateOk 12 (streamTimesOf (runEvents sha ops cfg now0 (ServerState.init node) [] evs).2.2 a) :=
+  ⟨fun t => rate_store sha ops cfg htok node now0 evs a t, fun t => rate_fetch sha ops cfg htok node now0 evs a t⟩
+
+end
+
+/-! ## non-vacuity -/
+
+/-- a node that stores nothing and knows no manifest -/
+def unitOps : NodeOps Unit :=
+  { decodeManifest := fun _ => none, ingest := fun _ _ => none, fetch := fun _ _ => none,
+    store := fun _ _ _ _ => (), write := fun _ _ _ => none, stopTransport := fun _ => () }
+
+def openCfg : Config := { token := none, powDifficulty := 0, cap := 8, minTtl := 30, maxTtl := 100, defaultTtl := 60 }
+
+def storeBytes : Bytes := ascii "COMMAND:STORE\nTOKEN:whatever\nPAYLOAD-LENGTH:2\n\nhi"
+
+/-- seven identical STOREs at one instant: six are accepted (so `admit` and `rate_store` talk about
+    something), the seventh is refused by the limiter; one nanosecond past 30 s a further one is accepted -/
+example :
+    ((runEvents (fun _ => []) unitOps openCfg 0 (ServerState.init ()) []
+        ((List.replicate 7 (Event.connect (ascii "10.0.0.1") storeBytes)) ++
+          [Event.advance 30000000000, Event.connect (ascii "10.0.0.1") storeBytes,
+           Event.advance 1, Event.connect (ascii "10.0.0.1") storeBytes])).2.2.map
+      fun e => (e.reply.map (·.code)).getD "-") =
+    ["OK_STORE", "OK_STORE", "OK_STORE", "OK_STORE", "OK_STORE", "OK_STORE", "ERR_STORE_RATE_LIMITED",
+     "ERR_STORE_RATE_LIMITED", "OK_STORE"] := by decide
+
+/-- a header block declaring 9 bytes with a cap of 8 -/
+example : ∃ code pre, parseRequest 8 (wireLines ([ascii "COMMAND:STORE"] ++ ascii "payload-length:9\r" :: [ascii "TTL:60"]) ++ 10 :: ascii "123456789")
+    = .error code (pre ++ 10 :: ascii "123456789") :=
+  too_large_reads_no_body 8 [ascii "COMMAND:STORE"] [ascii "TTL:60"] (ascii "payload-length:9\r") (ascii "9") (ascii "123456789") 9
+    (by decide) (by decide) (by decide) (by decide)
 
 end EphVerif.C28
